@@ -46,7 +46,9 @@ def pools(cls, seed=0, md5_salt_len=4):
     if cls == "md5":
         sa = "abcdefgh"[:md5_salt_len]
         sb = "ZYXW.VU/"[:md5_salt_len]
-        return [("$1$%s$%s" % (sa, _crypt_tail(22, 3)), "$1$%s$%s" % (sb, _crypt_tail(22, 40)))]
+        return [("$1$%s$%s" % (sa, _crypt_tail(22, 3)), "$1$%s$%s" % (sb, _crypt_tail(22, 40))),
+                # '$' is a printable character: it may occur after the salt as well
+                ("$1$%s$cdXefghijklmnopqrstuvw" % sa, "$1$%s$cd$efghijklmnopq$stuvw" % sa)]
     if cls == "sha512":
         return [("$6$%s$%s" % (_crypt_tail(16, 5), _crypt_tail(86, 9)),
                  "$6$%s$%s" % (_crypt_tail(16, 33), _crypt_tail(86, 21)))]
@@ -57,7 +59,7 @@ def pools(cls, seed=0, md5_salt_len=4):
 
 
 LEADING = ["", " ", "    ", "\t", '"', "'", "{", ":", 'something " ', "something ' ", "something { ",
-           "something : "]
+           "something : ", '      "', "\t{ ", "  ['", '   \\"']
 TRAILING = ["", '"', "'", "}", '" something', "' something", "} something", ";"]
 QUOTING = [("", ""), ('"', '"'), ("'", "'"), ('\\"', '\\"'), ("[", "]"), ("{", "}")]
 
